@@ -1,4 +1,4 @@
-// Command rewrite redirects the os, os/signal and internal/term imports of a
+// Command rewrite redirects the os, os/signal, path/filepath and internal/term imports of a
 // scratch copy of cmd/gxz, internal/gflag and internal/xlog to the simulated
 // packages. Usage: rewrite <copy-of-repo>
 package main
@@ -20,6 +20,7 @@ import (
 var redirect = map[string][2]string{
 	"os":                                     {"os", "verif/sim/simos"},
 	"os/signal":                              {"signal", "verif/sim/simsignal"},
+	"path/filepath":                          {"filepath", "verif/sim/simfilepath"},
 	"github.com/ulikunitz/xz/internal/term":  {"term", "verif/sim/simterm"},
 	"github.com/ulikunitz/xz/internal/gflag": {"gflag", "verif/gxzsim/gxzcopy/gflag"},
 	"github.com/ulikunitz/xz/internal/xlog":  {"xlog", "verif/gxzsim/gxzcopy/xlog"},
